@@ -36,7 +36,7 @@ var (
 	}
 	prodMethods = [][]MAtom{
 		nil, {mStarAtom}, {mv("PUT")}, {mv("put")}, {mv("patch")}, {mv("PATCH"), mv("DELETE")}, {mStarAtom, mv("PUT")},
-		{msafe("GET")}, {mv("OPTIONS")}, {mv("CHICKEN")},
+		{msafe("GET")}, {mv("OPTIONS")}, {mv("CHICKEN")}, {mv("OPTIONS-LIST"), mv("putx")},
 	}
 	prodReqHdrs = [][]HAtom{
 		nil, {hStarAtom}, {hStarAtom, hauth("Authorization")}, {hauth("Authorization"), hStarAtom}, {hauth("AUTHORIZATION")},
@@ -103,7 +103,7 @@ var (
 		{Scheme: "https", Host: "localhost"},
 		{Scheme: "connector", Host: "localhost", Port: 3000},
 	}
-	c02Methods     = []string{"GET", "HEAD", "POST", "PUT", "put", "Put", "patch", "PATCH", "DELETE", "delete", "OPTIONS", "CHICKEN", "chicken", "get"}
+	c02Methods     = []string{"GET", "HEAD", "POST", "PUT", "put", "Put", "patch", "PATCH", "DELETE", "delete", "OPTIONS", "CHICKEN", "chicken", "get", "OPTIONS-LIST", "putx"}
 	c02HeaderNames = []string{"authorization", "content-type", "x-listed-1", "x-listed-2", "x-unlisted", "accept-language"}
 )
 
